@@ -312,8 +312,13 @@ def run(ctx: Any, prog: Program) -> None:
         exr_items, exw_items = exr.extract(rd), exw.extract(wr)
         rs = simplify(flatten(exr_items))
         ws = simplify(flatten(exw_items))
-        ctx.check('C11.L4', rs == ws and '[' not in rs, bsp, wr, f'static props {m.name}: reader `{rs}` vs writer `{ws}`' + (' (undecided version gate)' if '[' in rs + ws else ''),
-                  func='BSP._lmp_write_props', text=f'static props {m.name} slots')
+        if '[' in rs or '[' in ws:
+            # a gate the configuration does not decide: the token strings are not comparable, no verdict
+            ctx.shape('C11.L4', False, bsp, wr, f'static props {m.name}: reader `{rs}` vs writer `{ws}`' + (' (undecided version gate)' if '[' in rs + ws else ''),
+                      func='BSP._lmp_write_props', text=f'static props {m.name} slots')
+        else:
+            ctx.check('C11.L4', rs == ws, bsp, wr, f'static props {m.name}: reader `{rs}` vs writer `{ws}`' + (' (undecided version gate)' if '[' in rs + ws else ''),
+                      func='BSP._lmp_write_props', text=f'static props {m.name} slots')
         rec = groups(rs)[-1] if groups(rs) else ''
         size = sum(int(x) for x in re.findall(r's(\d+);', rec))
         plain = re.sub(r's\d+;', '', rec).strip('()*')
